@@ -5,10 +5,12 @@ What is read (a changed literal changes the generated constant, so the Lean theo
 model -- which uses these constants -- to the Spec -- which uses the RFC/WAMP literals -- stop checking):
 
   twisted/rawsocket.py   server/client dataReceived: the magic octet compared with `!=`, the operands of
-                         `2 ** (9 + (octet >> 4))`, the serializer mask `& 0x0F`, the accumulator length 4
+                         `2 ** (9 + (octet >> 4))`, the serializer mask `& 0x0F`, the accumulator length 4;
+                         what lengthLimitExceeded() does (abort / raise / loseConnection); the frame-length cap of send()
   asyncio/rawsocket.py   MAGIC_BYTE, FRAME_TYPE_*, ERR_SERIALIZER_UNSUPPORTED, PrefixProtocol.max_length,
                          `_length_exp = 15`, parse_handshake's `& 0x0F`, `>> 4`, `2 ** (lexp + 9)`,
-                         data_received's type mask `& 0b111`
+                         data_received's type mask `& 0b111`; what ping()/pong() do (raise NotImplementedError / answer with
+                         a frame of which type / consume); the frame-length cap of send() and sendString()
   wamp/serializer.py     SERIALIZER_ID / RAWSOCKET_SERIALIZER_ID of every *Serializer class, BINARY of the
                          object serializers, the `<id>.batched` ids
   wamp/websocket.py      the literal "wamp", the version 2, the subprotocol prefix "wamp.2.", and the close
@@ -175,20 +177,59 @@ def _probe_role(pr, prefix, names):
 ROLE_KEYS = {"Magic": "magic", "PowBase": "powBase", "ExpAdd": "expAdd", "Shift": "shift", "SerMask": "serMask", "HsLen": "hsLen"}
 
 
-def _over_limit_raise(fn):
+def _const_eval(node):
+    """value of a constant integer expression such as `2**24 - 1` (None if it is not one)"""
+    for n in ast.walk(node):
+        if not isinstance(n, (ast.BinOp, ast.Constant, ast.operator, ast.UnaryOp, ast.unaryop)):
+            return None
+    try:
+        v = eval(compile(ast.Expression(node), "<c>", "eval"), {"__builtins__": {}}, {})
+    except Exception:
+        return None
+    return v if type(v) is int else None
+
+
+def _is_self_attr(n, attr):
+    return isinstance(n, ast.Attribute) and n.attr == attr and isinstance(n.value, ast.Name) and n.value.id == "self"
+
+
+def _limit_cap(fn, node, attr):
+    """`node` is the limit operand of a send guard. -> 0 when it is `self.<attr>` itself, C when it is `min(self.<attr>, C)`
+    (written in place or bound to a local name assigned exactly once in fn), C a constant integer expression."""
+    if _is_self_attr(node, attr):
+        return 0
+    if isinstance(node, ast.Name):
+        binds = [a.value for a in ast.walk(fn) if isinstance(a, ast.Assign) and len(a.targets) == 1
+                 and isinstance(a.targets[0], ast.Name) and a.targets[0].id == node.id]
+        if len(binds) != 1:
+            raise Shape(f"send guard: local {node.id} is not assigned exactly once")
+        node = binds[0]
+    if (isinstance(node, ast.Call) and isinstance(node.func, ast.Name) and node.func.id == "min" and len(node.args) == 2
+            and not node.keywords):
+        a, b = node.args
+        if _is_self_attr(b, attr):
+            a, b = b, a
+        c = _const_eval(b)
+        if _is_self_attr(a, attr) and c is not None and c > 0:
+            return c
+    raise Shape(f"send guard: limit operand is neither self.{attr} nor min(self.{attr}, <constant>)")
+
+
+def _aio_guard(fn):
+    """the over-limit guard `if <len> > <limit>: raise X` of an asyncio send function -> [(cap, exception class name)]"""
     found = []
     for n in ast.walk(fn):
-        if isinstance(n, ast.If) and isinstance(n.test, ast.Compare) and len(n.test.ops) == 1:
-            names = [m.attr for m in ast.walk(n.test) if isinstance(m, ast.Attribute)]
-            if "max_length_send" not in names:
-                continue
-            if not isinstance(n.test.ops[0], ast.Gt) or not (isinstance(n.test.comparators[0], ast.Attribute)
-                                                                and n.test.comparators[0].attr == "max_length_send"):
-                raise Shape("asyncio send guard is not `<len> > self.max_length_send`")
-            for m in n.body:
-                if isinstance(m, ast.Raise) and m.exc is not None:
-                    c = m.exc.func if isinstance(m.exc, ast.Call) else m.exc
-                    found.append(c.id if isinstance(c, ast.Name) else getattr(c, "attr", "?"))
+        if not (isinstance(n, ast.If) and isinstance(n.test, ast.Compare) and len(n.test.ops) == 1):
+            continue
+        raises = [m for m in n.body if isinstance(m, ast.Raise) and m.exc is not None]
+        if not raises:
+            continue
+        if not isinstance(n.test.ops[0], ast.Gt):
+            raise Shape("asyncio send guard is not `<len> > <limit>`")
+        cap = _limit_cap(fn, n.test.comparators[0], "max_length_send")
+        for m in raises:
+            c = m.exc.func if isinstance(m.exc, ast.Call) else m.exc
+            found.append((cap, c.id if isinstance(c, ast.Name) else getattr(c, "attr", "?")))
     return found
 
 
@@ -230,13 +271,43 @@ def extract():
         chains = [n for n in ast.walk(snd) if isinstance(n, ast.Compare) and len(n.ops) == 2]
         if len(chains) != 1 or not all(isinstance(o, ast.Lt) for o in chains[0].ops) or _int(chains[0].left) != 0:
             raise Shape("twisted send(): guard `0 < max_len_send < payload_len` not found")
-        return {"twSendGuardPresent": True}
+        # the limit operand: `self._max_len_send` (cap 0 = none) or `min(self._max_len_send, C)` (the 24-bit length field, N2)
+        return {"twSendGuardPresent": True, "twSendFrameCap": _limit_cap(snd, chains[0].comparators[0], "_max_len_send")}
 
     def probe_tw_send():
-        if probe.get("twisted").get("sendGuard") is not True:
+        pr = probe.get("twisted")
+        if pr.get("sendGuard") is not True:
             raise Shape("twisted send(): a 513-octet message to a peer that announced 512 is not refused with PayloadExceededError")
-        return {"twSendGuardPresent": True}
+        if type(pr.get("sendFrameCap")) is not int:
+            raise Shape("twisted send(): behaviour at 2^24 - 1 / 2^24 octets (peer exponent 15) not recognised")
+        return {"twSendGuardPresent": True, "twSendFrameCap": pr["sendFrameCap"]}
     group("twisted send guard", read_tw_send, probe_tw_send)
+
+    # N1 shape: what WampRawSocketProtocol.lengthLimitExceeded() does: 0 self.abort(), 1 raise PayloadExceededError (legacy), 2 loseConnection
+    def read_tw_limit():
+        fn = _find_func(_find_class(parse_tw(), "WampRawSocketProtocol"), "lengthLimitExceeded")
+        acts = []
+        for n in ast.walk(fn):
+            if isinstance(n, ast.Raise):
+                c = n.exc.func if isinstance(n.exc, ast.Call) else n.exc
+                if not (isinstance(c, ast.Name) and c.id == "PayloadExceededError"):
+                    raise Shape("lengthLimitExceeded raises something other than PayloadExceededError")
+                acts.append(1)
+            if isinstance(n, ast.Call) and isinstance(n.func, ast.Attribute):
+                if _is_self_attr(n.func, "abort"):
+                    acts.append(0)
+                elif n.func.attr == "loseConnection" or _is_self_attr(n.func, "close"):
+                    acts.append(2)
+                elif n.func.attr == "abortConnection":
+                    acts.append(0)
+        return {"twLengthLimitAction": _one(acts, "twisted lengthLimitExceeded action")}
+
+    def probe_tw_limit():
+        v = probe.get("twisted").get("lengthLimitAction")
+        if type(v) is not int:
+            raise Shape("twisted: an over-long frame header neither aborts, nor closes, nor raises PayloadExceededError")
+        return {"twLengthLimitAction": v}
+    group("twisted lengthLimitExceeded", read_tw_limit, probe_tw_limit)
 
     # ------------------------------------------------------------------ asyncio/rawsocket.py
     def parse_aio():
@@ -312,20 +383,90 @@ def extract():
         return {"aioServerAbortsOnUnsupported": v}
     group("asyncio unsupported-serializer path", read_aio_abort, probe_aio_abort)
 
-    # F14 shape: the exception class an over-long message raises on the asyncio send path
+    # F14 shape: the exception class an over-long message raises on the asyncio send path; N2: the frame-length caps
     def read_aio_send():
         aio = parse_aio()
-        found = _over_limit_raise(_find_func(_find_class(aio, "WampRawSocketMixinGeneral"), "send"))
-        if not found:
-            found = _over_limit_raise(_find_func(_find_class(aio, "PrefixProtocol"), "sendString"))
-        return {"aioSendOverLimitExc": EXC_CODE.get(_one(found, "asyncio over-limit exception class"), 2)}
+        snd = _aio_guard(_find_func(_find_class(aio, "WampRawSocketMixinGeneral"), "send"))
+        sst = _aio_guard(_find_func(_find_class(aio, "PrefixProtocol"), "sendString"))
+        if len(sst) != 1 or sst[0][1] != "ValueError":
+            raise Shape("PrefixProtocol.sendString: guard `if l > <limit>: raise ValueError` not found exactly once")
+        if len(snd) > 1:
+            raise Shape("asyncio send(): more than one over-limit guard")
+        first = snd[0] if snd else sst[0]       # legacy F14: send() had no guard of its own, sendString's ValueError came out
+        return {"aioSendOverLimitExc": EXC_CODE.get(first[1], 2), "aioSendFrameCap": first[0], "aioSendStringFrameCap": sst[0][0]}
 
     def probe_aio_send():
-        v = probe.get("asyncio").get("sendOverLimitExc")
+        pr = probe.get("asyncio")
+        v = pr.get("sendOverLimitExc")
         if not isinstance(v, str):
             raise Shape("asyncio send(): a 513-octet message to a peer that announced 512 is not refused with an exception")
-        return {"aioSendOverLimitExc": EXC_CODE.get(v, 2)}
+        if type(pr.get("sendFrameCap")) is not int or type(pr.get("sendStringFrameCap")) is not int:
+            raise Shape("asyncio send()/sendString(): behaviour at 2^24 - 1 / 2^24 octets (peer exponent 15) not recognised")
+        return {"aioSendOverLimitExc": EXC_CODE.get(v, 2), "aioSendFrameCap": pr["sendFrameCap"], "aioSendStringFrameCap": pr["sendStringFrameCap"]}
     group("asyncio over-limit send", read_aio_send, probe_aio_send)
+
+    # F13 shape: PrefixProtocol.ping()/pong(): `raise NotImplementedError()` (legacy) or: ping answers with one frame of type
+    # <constant> carrying the same payload (header = pack(prefix_format, len) with the first octet replaced), pong writes nothing
+    def read_aio_pingpong():
+        aio = parse_aio()
+        pp = _find_class(aio, "PrefixProtocol")
+        mc = _module_consts(aio)
+        g = {}
+        fns = {}
+        for name in ("ping", "pong"):
+            fn = fns[name] = _find_func(pp, name)
+            rs = [n for n in ast.walk(fn) if isinstance(n, ast.Raise)]
+            if rs:
+                c = rs[0].exc.func if isinstance(rs[0].exc, ast.Call) else rs[0].exc
+                if len(rs) != 1 or len(fn.body) != 1 or not (isinstance(c, ast.Name) and c.id == "NotImplementedError"):
+                    raise Shape(f"PrefixProtocol.{name}: raises, but is not just `raise NotImplementedError()`")
+            g[f"aio{name.capitalize()}Raises"] = bool(rs)
+
+        def writes(fn):
+            return [n for n in ast.walk(fn) if isinstance(n, ast.Call) and isinstance(n.func, ast.Attribute) and n.func.attr == "write"]
+
+        def other_calls(fn):
+            return [n for n in ast.walk(fn) if isinstance(n, ast.Call) and isinstance(n.func, ast.Attribute)
+                    and n.func.attr in ("close", "abort", "sendString", "protocol_error", "stringReceived")]
+        g["aioPingReplyType"] = 0
+        if not g["aioPingRaises"]:
+            fn = fns["ping"]
+            w = writes(fn)
+            if len(w) != 2 or other_calls(fn) or any(isinstance(n, (ast.If, ast.For, ast.While, ast.Try, ast.Return)) for n in ast.walk(fn)):
+                raise Shape("PrefixProtocol.ping: not two unconditional transport writes")
+            # 1st write: bytes(bytearray([<TYPE>])) + header[1:], header = struct.pack(self.prefix_format, len(data)); 2nd write: data
+            arg = w[0].args[0]
+            if not (isinstance(arg, ast.BinOp) and isinstance(arg.op, ast.Add) and isinstance(arg.right, ast.Subscript)
+                    and isinstance(arg.right.slice, ast.Slice) and _int(arg.right.slice.lower) == 1
+                    and arg.right.slice.upper is None and arg.right.slice.step is None):
+                raise Shape("PrefixProtocol.ping: first write is not `<type octet> + header[1:]`")
+            tys = [mc[n.id] for n in ast.walk(arg.left) if isinstance(n, ast.Name) and n.id in mc and type(mc[n.id]) is int]
+            tys += [n.value for n in ast.walk(arg.left) if isinstance(n, ast.Constant) and type(n.value) is int]
+            packs = [n for n in ast.walk(fn) if isinstance(n, ast.Call) and isinstance(n.func, ast.Attribute) and n.func.attr == "pack"]
+            if len(packs) != 1 or len(packs[0].args) != 2 or not _is_self_attr(packs[0].args[0], "prefix_format") \
+                    or ast.dump(packs[0].args[1]) != ast.dump(ast.parse("len(data)", mode="eval").body):
+                raise Shape("PrefixProtocol.ping: header is not struct.pack(self.prefix_format, len(data))")
+            if not (isinstance(w[1].args[0], ast.Name) and w[1].args[0].id == fn.args.args[1].arg == "data"):
+                raise Shape("PrefixProtocol.ping: second write is not the payload")
+            g["aioPingReplyType"] = _one(tys, "PrefixProtocol.ping reply frame type")
+        if not g["aioPongRaises"]:
+            fn = fns["pong"]
+            if writes(fn) or other_calls(fn):
+                raise Shape("PrefixProtocol.pong: does more than consuming the frame")
+        return g
+
+    def probe_aio_pingpong():
+        pr = probe.get("asyncio")
+        g = {}
+        for k, key in (("aioPingRaises", "pingRaises"), ("aioPongRaises", "pongRaises")):
+            if type(pr.get(key)) is not bool:
+                raise Shape(f"asyncio {key}: neither NotImplementedError nor the answered/consumed behaviour observed")
+            g[k] = pr[key]
+        if type(pr.get("pingReplyType")) is not int:
+            raise Shape("asyncio ping reply frame type not determined")
+        g["aioPingReplyType"] = pr["pingReplyType"]
+        return g
+    group("asyncio ping/pong", read_aio_pingpong, probe_aio_pingpong)
 
     # ------------------------------------------------------------------ wamp/serializer.py
     def read_sers():
@@ -432,6 +573,8 @@ def extract():
         order += [f"tw{role}{x}" for x in ("Magic", "PowBase", "ExpAdd", "Shift", "SerMask", "HsLen")]
     order += ["aioMagic", "aioTypeData", "aioTypePing", "aioTypePong", "aioErrSerUnsupported", "aioDefaultMaxLength", "aioTypeMask",
               "aioSerMask", "aioShift", "aioPowBase", "aioExpAdd", "aioLengthExp", "aioServerAbortsOnUnsupported", "aioSendOverLimitExc",
+              "aioSendFrameCap", "aioSendStringFrameCap", "twSendFrameCap", "twLengthLimitAction",
+              "aioPingRaises", "aioPongRaises", "aioPingReplyType",
               "serializers", "wsWord", "wsVersion", "wsPrefix", "wsCloseProtocolError", "wsCloseInternalError", "wsCloseOnOpenError",
               "wsCloseAbort", "wsCloseNormal"]
     g = {k: vals[k] for k in order}
